@@ -6,6 +6,7 @@ import (
 	"encoding/binary"
 	"fmt"
 	"math/big"
+	"sync"
 	"time"
 
 	"github.com/DOSNetwork/core/onchain/commitreveal"
@@ -52,11 +53,16 @@ const (
 	SubscribeCommitrevealLogRandom
 )
 
+// firstEventWindow is how long firstEvent remembers a delivered log
+var firstEventWindow = 100 * 15 * time.Second
+
 func firstEvent(ctx context.Context, source chan interface{}) (out chan interface{}) {
 	out = make(chan interface{})
 
 	go func() {
 		defer close(out)
+		// visited is shared with the expiry goroutines below: every access holds mu
+		var mu sync.Mutex
 		visited := make(map[string]uint64)
 		for {
 			select {
@@ -80,8 +86,13 @@ func firstEvent(ctx context.Context, source chan interface{}) (out chan interfac
 					var logIndex [8]byte
 					binary.BigEndian.PutUint64(logIndex[:], uint64(content.Raw.Index))
 					identity := string(nHash[:]) + string(content.Raw.TxHash[:]) + string(logIndex[:])
-					if visited[identity] == 0 {
+					mu.Lock()
+					first := visited[identity] == 0
+					if first {
 						visited[identity] = content.BlockN
+					}
+					mu.Unlock()
+					if first {
 						select {
 						case out <- content.log:
 						case <-ctx.Done():
@@ -89,8 +100,10 @@ func firstEvent(ctx context.Context, source chan interface{}) (out chan interfac
 						go func(identity string) {
 							select {
 							case <-ctx.Done():
-							case <-time.After(100 * 15 * time.Second):
+							case <-time.After(firstEventWindow):
+								mu.Lock()
 								delete(visited, identity)
+								mu.Unlock()
 							}
 						}(identity)
 					}
